@@ -105,7 +105,9 @@ func (interp *Interpreter) run(n *node, cf *frame) {
 	if cf == nil {
 		f = interp.frame
 	} else {
-		f = newFrame(cf, len(n.types), interp.runid())
+		// The function belongs to the run of its calling frame: if the evaluation was
+		// cancelled while package level code was running, main is not started.
+		f = newFrame(cf, len(n.types), cf.runid())
 	}
 	interp.mutex.RLock()
 	c := reflect.ValueOf(interp.done)
